@@ -7,6 +7,8 @@ import (
 	"bytes"
 	"encoding/json"
 	"fmt"
+	"net/http"
+	"net/http/httptest"
 	"os"
 	"path/filepath"
 	"reflect"
@@ -537,7 +539,7 @@ func c20MixFetch(cs *c20Case, obs *c20Obs) {
 		o := &plugin.Options{
 			Flagset: c20Flags{args: args, lists: map[string][]string{"base": bases},
 				bools: map[string]bool{"proto": true}, strings: map[string]string{"output": "out", "symbolize": "none"}},
-			Fetch: f, Sym: c20NoSym{}, Obj: c20ObjTool{}, UI: ui, Writer: w,
+			Fetch: f, Sym: c20NoSym{}, Obj: c20NoObj{}, UI: ui, Writer: w,
 		}
 		if err := driver.PProf(o); err != nil {
 			return "", ui.messages(), err
@@ -794,4 +796,85 @@ func c20MixBinutils(cs *c20Case, obs *c20Obs) {
 		}
 	}
 	os.Setenv("PATH", fullPath)
+}
+
+// ---------------------------------------------------------------------------------------------
+// mix: the HTTP transport shared by the concurrent fetches of one invocation
+
+// c20MixTransport: pprof's own fetcher and transport (no Fetcher plug-in).  Two TLS servers with
+// self-signed certificates serve the same profile.  Alone, an https+insecure:// source is fetched
+// and an https:// source is refused (certificate signed by unknown authority).  Fetched together,
+// in one invocation and therefore through ONE shared transport, each source must get the outcome
+// it gets alone: the result is the profile of the insecure sources only.
+func c20MixTransport(cs *c20Case, obs *c20Obs) {
+	var body bytes.Buffer
+	if err := c20WebProfile("c20source.src").Write(&body); err != nil {
+		obs.Error = err.Error()
+		return
+	}
+	h := http.HandlerFunc(func(w http.ResponseWriter, r *http.Request) { w.Write(body.Bytes()) })
+	srvA, srvB := httptest.NewTLSServer(h), httptest.NewTLSServer(h)
+	defer srvA.Close()
+	defer srvB.Close()
+	srvA.Config.ErrorLog, srvB.Config.ErrorLog = nil, nil
+	insecure := "https+insecure://" + strings.TrimPrefix(srvA.URL, "https://") + "/p"
+	secure := srvB.URL + "/p"
+	run := func(sources []string) (string, []string, error) {
+		w, ui := newC20Writer(), newC20UI()
+		o := &plugin.Options{
+			Flagset: c20Flags{args: sources, bools: map[string]bool{"proto": true},
+				strings: map[string]string{"output": "out", "symbolize": "none"}, ints: map[string]int{"timeout": 20}},
+			Sym: c20NoSym{}, Obj: c20NoObj{}, UI: ui, Writer: w,
+		}
+		if err := driver.PProf(o); err != nil {
+			return "", ui.messages(), err
+		}
+		b, ok := w.get("out")
+		if !ok {
+			return "", ui.messages(), fmt.Errorf("no output written")
+		}
+		p, err := profile.ParseData(b)
+		if err != nil {
+			return "", ui.messages(), err
+		}
+		return Canon(p), ui.messages(), nil
+	}
+	// alone
+	if _, msgs, err := run([]string{insecure}); err != nil {
+		obs.Error = fmt.Sprintf("https+insecure source alone: %v %v", err, msgs)
+		return
+	}
+	if _, _, err := run([]string{secure}); err == nil {
+		obs.hit("skipped:self-signed-certificate-accepted-alone")
+		return
+	}
+	r := NewRng(cs.Seed)
+	for round := 0; round < cs.Rounds && !c20Enough(obs); round++ {
+		nIns, nSec := 1+r.Intn(3), 1+r.Intn(4)
+		var ins, mixed []string
+		for i := 0; i < nIns; i++ {
+			ins = append(ins, insecure)
+		}
+		mixed = append(mixed, ins...)
+		for i := 0; i < nSec; i++ {
+			k := r.Intn(len(mixed) + 1)
+			mixed = append(mixed[:k], append([]string{secure}, mixed[k:]...)...)
+		}
+		want, _, err := run(ins)
+		if err != nil {
+			obs.Error = "insecure sources alone: " + err.Error()
+			return
+		}
+		var got string
+		var msgs []string
+		c20Fl.do(func() { got, msgs, err = run(mixed) })
+		c20Fl.overlapped.Add(1) // the sources of one invocation are fetched concurrently by pprof itself
+		obs.hit(fmt.Sprintf("fetch-%d-insecure+%d-verified", nIns, nSec))
+		switch {
+		case err != nil:
+			obs.fail("C20/transport/error", "fetching %d https+insecure and %d https sources together failed (%v); the insecure ones alone succeed", nIns, nSec, err)
+		case got != want:
+			obs.fail("C20/transport/outcome-depends-on-concurrent-fetch", "an https:// source whose certificate does not verify is refused when fetched alone, but %d such sources fetched together with %d https+insecure:// sources changed the result (shared transport state): %s; messages %v", nSec, nIns, c20FirstDiff([]byte(got), []byte(want)), msgs)
+		}
+	}
 }
